@@ -366,6 +366,9 @@ FAULTS_FOR = {
 
 
 def fault_kinds_for(kind, mut):
+    if kind.startswith('open:x'):
+        # exclusive creation (pack lock files): besides I/O errors, "somebody else holds it right now" (transient)
+        return FAULTS_FOR['open'] + ['eexist']
     if kind.startswith('open'):
         return FAULTS_FOR['open']
     if kind.startswith('sql:'):
@@ -395,6 +398,8 @@ class Injector:
             raise OSError(errno.EIO, f'Input/output error (injected at {kind} {rel})')
         if self.fault == 'eperm':
             raise PermissionError(errno.EACCES, f'Permission denied (injected at {kind} {rel})')
+        if self.fault == 'eexist':
+            raise FileExistsError(errno.EEXIST, f'File exists (injected at {kind} {rel}: held by another client at this moment)')
         if self.fault == 'sqlerr':
             import sqlite3  # pylint: disable=import-outside-toplevel
 
@@ -1047,7 +1052,7 @@ def shrink(case, budget_s=60.0):
         res2 = execute(pinned)
         if shr.vclass(res2) == shr.vclass(res):
             return pinned, res2
-    match = re.search(r'(eio|eperm|enospc|close-lost|sqlerr)@(\d+)', detail)
+    match = re.search(r'(eio|eperm|eexist|enospc|close-lost|sqlerr)@(\d+)', detail)
     if match:
         pinned = dict(small, positions=[[int(match.group(2)), match.group(1)]])
         res2 = execute(pinned)
